@@ -498,7 +498,13 @@ pub fn flags(props: &str, len_full: usize, len: usize, len_trivia: usize, dev: u
 
 /// Generates, compiles and runs. `args` are passed to every batch binary.
 pub fn run_family(grammars: &[Grammar], args: &[String], run: bool) -> BOutcome {
-    let scratch = vcommon::scratch_dir(&format!("b-{}", std::process::id()));
+    // scratch: a memory file system when there is one (many small files are written and read back)
+    let shm = PathBuf::from(format!("/dev/shm/verif-b-{}", std::process::id()));
+    let scratch = if std::env::var("VERIF_KEEP").is_err() && std::fs::create_dir_all(&shm).is_ok() {
+        shm
+    } else {
+        vcommon::scratch_dir(&format!("b-{}", std::process::id()))
+    };
     let paths = batch_paths();
     // 1. generate (parallel, in-process)
     let outcomes: Vec<GenOutcome> = grammars
